@@ -102,28 +102,13 @@ def check(env, rep, tier):
         if any(b is None for b in bodies.values()):
             continue
         want = {QUOTE, esc}
-        # writer escape set: chars compared in the value loop of attr_quoted
-        ws, winfo = char_sets(prog, bodies[WQ])
-        e_w = set()
-        for loop, cs in ws.items():
-            if loop is not None:
-                e_w |= cs
         site = lambda b: {"file": b["span"]["f"], "line": b["span"]["l"], "fn": b["path"]}
-        rep.ob("C16.1", "writer-escape-set", e_w == want,
-               "attr_quoted escapes the characters %s, expected exactly quote and backslash" % sorted(map(chr, e_w)), site(bodies[WQ]),
-               sample={"rule": "C16.1", "writer_escapes": sorted(map(chr, e_w))})
-        wq_written = written_chars(prog, bodies[WQ])
-        rep.ob("C16.1", "writer-escape-char", esc in wq_written and wq_written.count(QUOTE) >= 2,
-               "attr_quoted does not write the escape character / the two enclosing quotes (writes %s)" % [chr(c) for c in wq_written], site(bodies[WQ]))
+        # (the writer's escape set and quotes are decided by C16.4 on the sink log, whatever helper performs the writes)
         # scanners: innermost loop nested in another loop = the in-quote loop
         for nm, tag in ((P, "link-scanner"), (A, "attr-scanner")):
             cs, info = char_sets(prog, bodies[nm])
             inner = [h for h in info.loops if info.parent_loop.get(h) is not None]
             sets = [cs.get(h, set()) for h in inner]
-            rep.ob("C16.1", "%s|in-quote-set" % tag, len(sets) >= 1 and all(x == want for x in sets),
-                   "%s treats %s specially inside quotes, expected exactly quote and backslash (the writer's escape set)" % (
-                       nm, [sorted(map(chr, x)) for x in sets]), site(bodies[nm]),
-                   sample={"rule": "C16.1", "scanner": tag, "in_quote_special": [sorted(map(chr, x)) for x in sets]})
             outer = set()
             for h, x in cs.items():
                 if h not in inner:
@@ -131,82 +116,33 @@ def check(env, rep, tier):
             sep = lsep if nm == P else asep
             rep.ob("C16.3", "%s|separator" % tag, sep in outer and QUOTE in outer,
                    "%s does not split on the separator %r outside quotes (compares with %s)" % (nm, chr(sep) if sep else None, sorted(map(chr, outer))), site(bodies[nm]))
-            rep.ob("C16.2", "%s|structural-not-alnum" % tag, not any(chr(c).isalnum() for c in outer | set().union(*sets) if c < 128),
+            rep.ob("C16.2", "%s|structural-not-alnum" % tag, not any(chr(c).isalnum() for c in outer | (set().union(*sets) if sets else set()) if c < 128),
                    "a structural character of %s is alphanumeric, so a bare attribute value could be mis-parsed" % nm, site(bodies[nm]))
-        us, uinfo = char_sets(prog, bodies[U])
-        uall = set().union(*us.values()) if us else set()
-        rep.ob("C16.1", "unquote-set", uall == want, "Unquote::next treats %s specially, expected exactly quote and backslash" % sorted(map(chr, uall)), site(bodies[U]))
-        # C16.2 attr(): bare only if all ASCII alphanumeric
-        wa = bodies[WA]
-        clos = [b for b in prog.bodies.values() if b["path"].startswith(WA + "::{closure#") and not b.get("promoted")]
-        okc = False
-        for cb in clos:
-            calls = [(bb["term"].get("resolved") or bb["term"].get("callee") or {}).get("path") for bb in cb["blocks"] if bb["term"]["k"] == "call"]
-            nots = [s for bb in cb["blocks"] for s in bb["stmts"] if s["k"] == "assign" and s["rv"]["k"] == "un" and s["rv"]["op"] == "Not" and not s["place"]["p"] and s["place"]["l"] == 0]
-            if "core::char::methods::<impl char>::is_ascii_alphanumeric" in calls and nots:
-                okc = True
-        calls = [(bb["term"].get("resolved") or bb["term"].get("callee") or {}).get("path") for bb in wa["blocks"] if bb["term"]["k"] == "call" and not bb["cleanup"]]
-        rep.ob("C16.2", "bare-only-alnum", okc and WQ in calls and "core::str::<impl str>::find" in calls,
-               "attr() no longer falls back to attr_quoted whenever some character is not ASCII alphanumeric", site(wa))
-        # C16.3 writer separators
-        rep.ob("C16.3", "writer|attr-sep", written_chars(prog, bodies[WK])[:1] == [asep] and ord("=") in written_chars(prog, bodies[WK]),
-               "internal_attr_key_eq does not write the attribute separator first and '=' after the key (writes %s)" % [chr(c) for c in written_chars(prog, bodies[WK])], site(bodies[WK]))
-        wl = written_chars(prog, bodies[WL])
-        rep.ob("C16.3", "writer|link-sep", lsep in wl and ord("<") in wl and ord(">") in wl,
-               "link() does not write the link separator and the angle brackets (writes %s)" % [chr(c) for c in wl], site(bodies[WL]))
+        # C16.2 / C16.3 (writer side) / C16.7: decided on the sink log of the public writer methods (linkfmt.check_writer_methods)
+        import linkfmt
+        linkfmt.check_writer_methods(prog, rep, lsep if lsep is not None else ord(","), asep if asep is not None else ord(";"), site)
         # ---- C16.4-6 per-character transducers (semantic, by abstract interpretation)
         import linkfmt
         linkfmt.check_writer(prog, rep, bodies[WQ], asep if asep is not None else ord(";"), site(bodies[WQ]))
+        # the in-quote loop: any loop of the module that compares characters with the escape character - it may sit
+        # in the scanner itself (nested loop) or in a helper both scanners share
+        inq = set()
+        for lb in prog.bodies.values():
+            if lb.get("promoted") or not (lb["path"].startswith("link_format::") or "link_format::" in lb["path"]) or "Unquote" in lb["path"] \
+                    or "LinkAttributeWrite" in lb["path"] or "LinkFormatWrite" in lb["path"]:
+                continue
+            lcs, linfo = char_sets(prog, lb)
+            for h_, cs_ in lcs.items():
+                if h_ is not None and esc in cs_:
+                    inq.add((lb["id"], h_))
         for nm, tag in ((P, "link-scanner"), (A, "attr-scanner")):
-            info = interp.BodyInfo(bodies[nm])
-            inner = [h for h in info.loops if info.parent_loop.get(h) is not None]
-            linkfmt.check_scanner(prog, rep, bodies[nm], inner, tag, site(bodies[nm]))
+            linkfmt.check_scanner(prog, rep, bodies[nm], inq, tag, site(bodies[nm]))
         linkfmt.check_unquote(prog, rep, bodies[U], site(bodies[U]))
-        # ---- C16.7 integer attributes: the number is written by core's Display for the integer itself
-        import provenance
-        WU = find_body(prog, "link_format::LinkAttributeWrite::<'_, '_, T>::attr_u32")
-        W16 = find_body(prog, "link_format::LinkAttributeWrite::<'_, '_, T>::attr_u16")
-        if WU is None or W16 is None:
-            rep.missing("C16.7", "attr_u32 / attr_u16")
-        else:
-            calls = [bb["term"] for bb in WU["blocks"] if bb["term"]["k"] == "call" and not bb["cleanup"]]
-            byp = {}
-            for t in calls:
-                byp.setdefault(provenance.callee_path(t), []).append(t)
-            disp = byp.get("core::fmt::rt::Argument::<'_>::new_display", [])
-            news = byp.get("core::fmt::Arguments::<'a>::new", [])
-            wf = byp.get("core::fmt::Write::write_fmt", [])
-            ok = len(disp) == 1 and len(news) == 1 and len(wf) == 1 and len(byp.get(WK, [])) == 1
-            ok = ok and not any(p_.endswith("::write_char") or p_.endswith("::write_str") for p_ in byp)
-            why = "calls: %s" % sorted(byp)
-            if ok:
-                steps, term = provenance.trace(WU, disp[0]["args"][0])
-                gty = [prog.types[g_]["s"] for g_ in disp[0]["callee"].get("gargs", [])]
-                tsteps, tterm = provenance.trace(WU, wf[0]["args"][1])
-                tmpl = news[0]["args"][0]
-                t2s, t2t = provenance.trace(WU, tmpl)
-                tmpl_ty = prog.types[t2t[1]]["s"] if t2t[0] == "const" and t2t[1] is not None else "?"
-                ok = (not steps and term == ("arg", 3, "") and gty == ["u32"]
-                      and [x[1] for x in tsteps if x[0] == "call"] == ["core::fmt::Arguments::<'a>::new"]
-                      and "[u8; 2" in tmpl_ty)
-                why = "displayed operand %s of type %s, template %s" % (term, gty, tmpl_ty)
-            rep.ob("C16.7", "attr_u32|display", ok,
-                   "attr_u32 does not write its number as write!(sink, \"{}\", value) - core's decimal Display of the u32 itself, nothing "
-                   "around it (%s); a hand-rolled conversion is not decided and is reported (fail closed)" % why, site(WU),
-                   sample={"rule": "C16.7", "display_calls": len(disp)})
-            c16 = [bb["term"] for bb in W16["blocks"] if bb["term"]["k"] == "call" and not bb["cleanup"]]
-            ok = len(c16) == 1 and provenance.callee_path(c16[0]) == WU["path"] and len(c16[0]["args"]) == 3
-            if ok:
-                steps, term = provenance.trace(W16, c16[0]["args"][2])
-                ok = term == ("arg", 3, "") and steps in ([("cast", "IntToInt")], []) 
-                ks, kt = provenance.trace(W16, c16[0]["args"][1])
-                ok = ok and kt[:2] == ("arg", 2) and not [x for x in ks if x[0] == "call"]
-            rep.ob("C16.7", "attr_u16|delegates", ok, "attr_u16 does not hand (key, value widened to u32) to attr_u32", site(W16))
         acalls = [(bb["term"].get("resolved") or bb["term"].get("callee") or {}) for bb in bodies[A]["blocks"] if bb["term"]["k"] == "call" and not bb["cleanup"]]
         eq_find = False
         for bb in bodies[A]["blocks"]:
             t = bb["term"]
-            if t["k"] == "call" and not bb["cleanup"] and (t.get("resolved") or {}).get("path") == "core::str::<impl str>::find":
+            if t["k"] == "call" and not bb["cleanup"] and (t.get("resolved") or {}).get("path") in ("core::str::<impl str>::find", "core::str::<impl str>::split_once"):
                 a = t["args"][1]
                 if a["k"] == "const" and a.get("int") == str(ord("=")):
                     eq_find = True
